@@ -6,7 +6,7 @@ LEAN_MODULES = ["CifModel.Props.C12", "CifModel.Lemmas.ParserTop", "CifModel.Pro
                 "CifModel.Lemmas.ParserDefectSeg", "CifModel.Lemmas.DefectCharsSeg", "CifModel.Lemmas.ParserDefectDie",
                 "CifModel.Props.C12Two", "CifModel.Props.C12Frames", "CifModel.Props.C12Die",
                 "CifModel.Lemmas.ParserDefectCombo", "CifModel.Lemmas.ParserDefectBare", "CifModel.Props.C12Bare",
-                "CifModel.Lemmas.LexDefectMulti", "CifModel.Props.C12ScanMulti"]
+                "CifModel.Lemmas.LexDefectMulti", "CifModel.Props.C12ScanMulti", "CifModel.Lemmas.DefectCharsPlain"]
 REQUIRED = ["CifModel.C12_clean", "CifModel.C12_first_report_is_policy_free", "CifModel.C12_missing_value_instance",
             "CifModel.C12_unexpected_value_instance", "CifModel.C12_dup_scalar_instance", "CifModel.C12_dup_loop_header_instance",
             "CifModel.C12_partial_packet_instance", "CifModel.C12_empty_and_null_loop_instance", "CifModel.C12_no_block_header_instance",
@@ -104,7 +104,13 @@ REQUIRED = ["CifModel.C12_clean", "CifModel.C12_first_report_is_policy_free", "C
             "CifModel.Model.Lexer.multi", "CifModel.Model.Lexer.EvToWs.lead", "CifModel.Model.Lexer.EvToEol.lead",
             "CifModel.Model.Lexer.EvDelim.lead", "CifModel.Model.Lexer.EvDelim.of1",
             "CifModel.C12_several_defects_name", "CifModel.C12_several_defects_quoted", "CifModel.C12_several_defects_comment",
-            "CifModel.C12_invalid_char_lead_anywhere"]
+            "CifModel.C12_invalid_char_lead_anywhere",
+            # any depth of nesting; frames not allowed (max_frame_depth = 0)
+            "CifModel.Model.Parser.Seg.nest", "CifModel.Lemmas.DefectChars.nest_fuel", "CifModel.Props.C12_chars_in_frames",
+            "CifModel.Props.C12Frames.C12_chars_in_frames_instance",
+            "CifModel.Model.Parser.elemsV_plain_at", "CifModel.Model.Parser.plain_blocks_prefix_at",
+            "CifModel.Model.Parser.plain_blocks_structure", "CifModel.Lemmas.DefectChars.block_segs_plain_chars",
+            "CifModel.Props.C12_chars_frame_not_allowed", "CifModel.Props.C12Frames.C12_chars_frame_not_allowed_instance"]
 GEN = ["ErrCodes", "CharClass", "ParseConsts"]
 FAMILIES = ["defect"]
 TRUSTED_BASE = [
